@@ -75,7 +75,14 @@ class FakePool:
         keys = [(self.order[i % len(self.order)], i) for i in range(n)]
         return [i for _, i in sorted(keys)]
 
+    @staticmethod
+    def _check_chunksize(chunksize):
+        # multiprocessing.Pool refuses a chunk size below one
+        if chunksize is not None and chunksize < 1:
+            raise ValueError("Chunksize must be 1+, not {0:n}".format(chunksize))
+
     def imap_unordered(self, func, iterable, chunksize=1):
+        self._check_chunksize(chunksize)
         items = list(iterable)
         results = [func(x) for x in items]
         perm = self._perm(len(results))
@@ -84,6 +91,7 @@ class FakePool:
             yield results[i]
 
     def imap(self, func, iterable, chunksize=1):
+        self._check_chunksize(chunksize)
         items = list(iterable)
         perm = self._perm(len(items))
         results = [None] * len(items)
